@@ -86,9 +86,24 @@ func (x xmlExporter) Map(m value.Map) MapExporter {
 	return &xmlMapExporter{x: x, isSimple: isSimpleMap(m)}
 }
 
+// isXmlName returns true if the given string can be used as an attribute name.
+func isXmlName(name string) bool {
+	for i, r := range name {
+		isStart := r == '_' || (r >= 'a' && r <= 'z') || (r >= 'A' && r <= 'Z')
+		if !(isStart || (i > 0 && (r == '-' || r == '.' || (r >= '0' && r <= '9')))) {
+			return false
+		}
+	}
+	return name != ""
+}
+
 func isSimpleMap(m value.Map) bool {
 	isSimple := true
 	m.Iter(func(key string, e value.Value) bool {
+		if !isXmlName(key) {
+			// the key can not be written as an attribute name
+			isSimple = false
+		}
 		if _, ok := e.ToMap(); ok {
 			isSimple = false
 		}
